@@ -248,7 +248,9 @@ def parsedShipped (cfg : Cfg) (level : String) : Except Err (List Rule) :=
 open ASV.Rulesets in
 def handleRulesets (j : Json) : R Json := do
   let cfg ← cfgOfJson j
-  let parsed := parsedShipped cfg
+  -- the rule files of each strictness are parsed once per case
+  let table := Generated.ShippedRules.files.map fun f => (f.1, parsedShipped cfg f.1)
+  let parsed : String → Except Err (List Rule) := fun l => (table.lookup l).getD (.error .value)
   let reqs ← listOf reqOfJson (← fld j "steps")
   let checks ← listOf (fun s => pure ((s.getObjVal? "check").toOption == some (Json.bool true))) (← fld j "steps")
   -- the model: one process, requests in order; a failing request leaves the state alone
